@@ -31,6 +31,11 @@ pub struct Sc {
     pub roots: Vec<RootEp>,
     pub v1: (u64, u64, u64),
     pub v2: (u64, u64, u64),
+    /// between the two cycles the client makes one more attempt that sees the newer roots but
+    /// cannot finish: 1 = timestamp.json is unavailable, 2 = the snapshot file is unavailable
+    /// (0 = no such attempt). The judged cycle comes after it.
+    #[serde(default)]
+    pub interrupted: u8,
 }
 
 pub struct C14;
@@ -140,7 +145,7 @@ impl Check for C14 {
         "C14"
     }
     fn rule(&self) -> String {
-        "two-cycle history on one datastore: cycle 1 stores timestamp/snapshot at versions drawn from {small, 2^32, 2^63-1, ...} signed with the then-current keys; before cycle 2 a chain of 0..3 newer roots rotates timestamp and/or snapshot keys (disjoint, overlapping, drop-first, drop-last, add, threshold-only, none, rotate-and-back); cycle 2 serves low versions; non-trivial = cycle 2 served a timestamp or snapshot version lower than the stored one; distinct = distinct canonical trace".into()
+        "two-cycle history on one datastore: cycle 1 stores timestamp/snapshot at versions drawn from {small, 2^32, 2^63-1, ...} signed with the then-current keys; before cycle 2 a chain of 0..3 newer roots rotates timestamp and/or snapshot keys (disjoint, overlapping, drop-first, drop-last, add, threshold-only, none, rotate-and-back); in a third of the histories one more attempt in between sees the newer roots but finds the timestamp or the snapshot unavailable; cycle 2 serves low versions; non-trivial = cycle 2 served a timestamp or snapshot version lower than the stored one; distinct = distinct canonical trace".into()
     }
     fn assumptions(&self) -> Vec<String> {
         vec![
@@ -158,7 +163,7 @@ impl Check for C14 {
         }
     }
     fn required_faults(&self, _t: Tier) -> Vec<&'static str> {
-        vec!["fast_forwarded_timestamp_stored", "fast_forwarded_snapshot_stored", "keys_replaced_old_file_still_verifies", "keys_replaced_disjoint", "no_rotation_replay"]
+        vec!["fast_forwarded_timestamp_stored", "fast_forwarded_snapshot_stored", "keys_replaced_old_file_still_verifies", "keys_replaced_disjoint", "no_rotation_replay", "attempt_cut_short_after_root_update"]
     }
     fn required_probes(&self, _t: Tier) -> Vec<&'static str> {
         vec!["recovered_after_rotation", "rollback_refused_without_rotation"]
@@ -190,7 +195,8 @@ impl Check for C14 {
         let v1 = (*r.pick(&big), *r.pick(&big), 1 + r.below(3));
         let low = |r: &mut Rng, old: u64| if r.chance(1, 6) { old } else { 1 + r.below(3) };
         let v2 = (low(&mut r, v1.0), low(&mut r, v1.1), v1.2 + r.below(2));
-        Sc { world: r.below(1_000_003), consistent: r.chance(1, 2), roots, v1, v2 }
+        let interrupted = if r.chance(1, 3) { 1 + r.below(2) as u8 } else { 0 };
+        Sc { world: r.below(1_000_003), consistent: r.chance(1, 2), roots, v1, v2, interrupted }
     }
     fn shrink(&self, sc: &Sc) -> Vec<Sc> {
         let mut v = Vec::new();
@@ -201,6 +207,9 @@ impl Check for C14 {
         }
         if sc.consistent {
             v.push(Sc { consistent: false, ..sc.clone() });
+        }
+        if sc.interrupted != 0 {
+            v.push(Sc { interrupted: 0, ..sc.clone() });
         }
         if sc.v1.0 > 9 {
             v.push(Sc { v1: (9, sc.v1.1, sc.v1.2), ..sc.clone() });
@@ -220,11 +229,16 @@ impl Check for C14 {
         let ds = scratch.dir("datastore");
         world::set_clock(Some(T0));
         let last = sc.roots.len() - 1;
-        o.ev(format!("cfg consistent={} roots={:?} v1={:?} v2={:?}", sc.consistent, sc.roots, sc.v1, sc.v2));
-        let run_cycle = |epoch: usize, v: (u64, u64, u64)| {
+        o.ev(format!("cfg consistent={} roots={:?} v1={:?} v2={:?} interrupted={}", sc.consistent, sc.roots, sc.v1, sc.v2, sc.interrupted));
+        let run_cycle_without = |epoch: usize, v: (u64, u64, u64), withheld: u8| {
             let files = state(sc, epoch, v);
             let shipped = files.meta.get("1.root.json").cloned().unwrap();
-            let meta = files.meta.clone();
+            let mut meta = files.meta.clone();
+            match withheld {
+                1 => meta.retain(|k, _| k != "timestamp.json"),
+                2 => meta.retain(|k, _| !k.ends_with("snapshot.json")),
+                _ => {}
+            }
             let transport = SimTransport::new(move |r| {
                 if r.base == Base::Metadata {
                     meta.get(&r.rel).map_or(Resp::not_found(), |b| Resp::whole(b))
@@ -240,12 +254,20 @@ impl Check for C14 {
                 }
             })
         };
+        let run_cycle = |epoch: usize, v: (u64, u64, u64)| run_cycle_without(epoch, v, 0);
         let r1 = run_cycle(0, sc.v1);
         o.ev(format!("cycle1 -> {:?}", r1.as_ref().map_err(|e| (e.0.name(), e.1.clone()))));
         if r1.is_err() {
             world::set_clock(None);
             o.harness(format!("clean first cycle failed: {r1:?}"));
             return o;
+        }
+        if sc.interrupted != 0 {
+            let ri = run_cycle_without(last, sc.v2, sc.interrupted);
+            o.ev(format!("interrupted attempt (withheld {}) -> {:?}", sc.interrupted, ri.as_ref().map_err(|e| (e.0.name(), e.1.clone()))));
+            if ri.is_err() {
+                o.fault("attempt_cut_short_after_root_update");
+            }
         }
         let r2 = run_cycle(last, sc.v2);
         o.ev(format!("cycle2 -> {:?}", r2.as_ref().map_err(|e| (e.0.name(), e.1.clone()))));
